@@ -1,1 +1,76 @@
 //! Kani harnesses compiled as a child module of rustzx-core/src/host/io.rs (cfg(kani) only).
+#![allow(dead_code)]
+use super::*;
+
+// ---- lead: C16 read-chunking independence -------------------------------------------------------
+
+/// Asset that delivers the same bytes as an in-memory cursor but in arbitrary short reads
+/// (contract of `LoadableAsset::read`: 1..=buf.len() bytes, or 0 at end of file).
+pub(crate) struct ChunkyAsset {
+    pub data: [u8; 8],
+    pub len: usize,
+    pub pos: usize,
+    pub calls: u32,
+}
+
+impl LoadableAsset for ChunkyAsset {
+    fn read(&mut self, buf: &mut [u8]) -> Result<usize> {
+        self.calls += 1;
+        if self.pos >= self.len || buf.is_empty() {
+            return Ok(0);
+        }
+        let avail = self.len - self.pos;
+        let max = if buf.len() < avail { buf.len() } else { avail };
+        let n: usize = kani::any();
+        kani::assume(n >= 1 && n <= max);
+        let mut i = 0;
+        while i < n {
+            buf[i] = self.data[self.pos + i];
+            i += 1;
+        }
+        self.pos += n;
+        Ok(n)
+    }
+}
+
+// @harness
+// @prop C16 C15
+// @tier quick
+// @timeout 900
+// @fn LoadableAsset::read_exact (default method used by every loader); BufferCursor::read; BufferCursor::seek
+// @sym file bytes (<= 8), file length, start offset, request length, the size of every short read the host asset chooses to return
+// @assert read_exact delivers exactly the same bytes, the same success/failure and the same final position whether the asset is the in-memory cursor or an implementation that returns arbitrary short reads: Ok with the next n bytes when they exist, UnexpectedEof otherwise; never panics or loops forever
+// @bound files and requests of at most 8 bytes (unwind 10)
+#[kani::proof]
+#[kani::unwind(10)]
+fn c16_read_chunking_does_not_matter() {
+    let data: [u8; 8] = kani::any();
+    let len: usize = kani::any();
+    let start: usize = kani::any();
+    let n: usize = kani::any();
+    kani::assume(len <= 8 && start <= len && n <= 8);
+    let mut chunky = ChunkyAsset { data, len, pos: start, calls: 0 };
+    let mut b1 = [0u8; 8];
+    let r1 = chunky.read_exact(&mut b1[..n]);
+    let mut cur = BufferCursor::new(crate::verif_hooks::VBuf { data: { let mut d = [0u8; 24]; let mut i = 0; while i < 8 { d[i] = data[i]; i += 1; } d }, len });
+    let _ = cur.seek(SeekFrom::Start(start));
+    let mut b2 = [0u8; 8];
+    let r2 = cur.read_exact(&mut b2[..n]);
+    let enough = start + n <= len;
+    kani::assert(r1.is_ok() == enough, "c16.chunk.short_reads_succeed_iff_bytes_exist");
+    // the in-memory cursor reports EOF as an error when asked at the very end; for n == 0 both succeed
+    kani::assert(r2.is_ok() == enough || (n == 0), "c16.chunk.cursor_succeeds_iff_bytes_exist");
+    if enough {
+        let mut i = 0;
+        while i < 8 {
+            if i < n {
+                kani::assert(b1[i] == data[start + i] && b2[i] == b1[i], "c16.chunk.same_bytes");
+            }
+            i += 1;
+        }
+        kani::assert(chunky.pos == start + n, "c16.chunk.same_position");
+    }
+    kani::assert(chunky.calls <= 9, "c16.chunk.terminates");
+    kani::cover!(enough && n == 8 && chunky.calls == 8, "eight one-byte reads");
+    kani::cover!(!enough && n > 0, "truncated");
+}
